@@ -70,7 +70,7 @@ func makeCase(workload string, idx int) (c caseCfg, m caseMeta) {
 	switch workload {
 	case wlTyped:
 		if idx < len(idioms) {
-			c.Script, m.Name = idioms[idx].script, "idiom:"+idioms[idx].name
+			c.Script, c.Subs, m.Name = idioms[idx].script, idioms[idx].subs, "idiom:"+idioms[idx].name
 			c.StepCap = 60000
 			// idioms need their gas: unpriced or unlimited
 			if r.Bool() {
@@ -80,8 +80,13 @@ func makeCase(workload string, idx int) (c caseCfg, m caseMeta) {
 			return
 		}
 		var fl int
-		c.Script, fl, m.Hostile = genTyped(r)
-		m.Name = "flavor:" + strconv.Itoa(fl)
+		if r.Chance(1, 4) {
+			c.Script, c.Subs, fl, m.Hostile = genNested(r)
+			m.Name = "nested:" + strconv.Itoa(len(c.Subs)) + ":flavor:" + strconv.Itoa(fl)
+		} else {
+			c.Script, fl, m.Hostile = genTyped(r)
+			m.Name = "flavor:" + strconv.Itoa(fl)
+		}
 		// deep sequences need their gas: mostly priced but unlimited (the gas clause is then
 		// checked by the rerun with consumed-1), sometimes a boundary-biased finite limit.
 		c.GasLimit = -1
@@ -192,6 +197,12 @@ func witnessOf(workload string, idx int, c *caseCfg, m *caseMeta, v *violation) 
 	if v != nil {
 		w["step"], w["ip"], w["op"] = v.Step, v.IP, v.Op
 	}
+	for i := range c.Subs {
+		w[fmt.Sprintf("sub%d", i)] = map[string]any{"script": hexScript(c.Subs[i].Script), "nargs": c.Subs[i].NArgs, "hash": c.Subs[i].Hash.StringLE(), "disasm": disasm(c.Subs[i].Script, 200)}
+	}
+	if len(c.Subs) > 0 {
+		w["loader"] = "SYSCALL id = k | mode<<8 | nargs<<16 | 0xC1<<24; modes: 0 LoadScriptWithHash, 1 LoadNEFMethod(no return), 2 LoadNEFMethod(return), 3 LoadDynamicScript, 4 LoadScriptWithFlags; nargs items are moved from the caller's stack to the new context's stack"
+	}
 	if len(c.Script) < 4000 {
 		w["disasm"] = disasm(c.Script, 400)
 	}
@@ -287,6 +298,11 @@ func childMain(t *testing.T, specPath string) {
 		if o.EverCyclic {
 			res.Obs["scripts_with_cycle_built"]++
 		}
+		if len(c.Subs) > 0 {
+			res.Obs["scripts_with_sub_scripts"]++
+			res.Obs["loader_syscalls_executed"] += int64(o.Loads)
+		}
+		obsMax("max_script_contexts_loaded_one_script", o.Loads)
 		res.Obs["steps_counter_above_walk_with_cycle"] += int64(o.OverCount)
 		if o.StaticPanic {
 			res.Obs["static_check_panicked"]++
@@ -339,6 +355,12 @@ func childMain(t *testing.T, specPath string) {
 			}
 		}
 		curCase.Store(-1)
+		if o.Leak != nil {
+			res.Obs["violating_cases"]++
+			if len(res.Violations) < 40 {
+				res.Violations = append(res.Violations, childViol{Sig: o.Leak.Sig, CaseID: id, Detail: o.Leak.Detail, Witness: witnessOf(spec.Workload, idx, &c, &m, o.Leak)})
+			}
+		}
 		if viol != nil {
 			res.Obs["violating_cases"]++
 			if len(res.Violations) < 40 {
